@@ -1,4 +1,4 @@
-CONSTANTS NObj = 3 MaxStack = 3 MaxFields = 2 RescanRoots = FALSE WithStrOps = FALSE
+CONSTANTS NObj = 3 MaxStack = 3 MaxFields = 2 RescanRoots = FALSE WithStrOps = FALSE RescanScope = "all"
 SPECIFICATION Spec
 INVARIANTS Safe
 CHECK_DEADLOCK FALSE
